@@ -189,3 +189,34 @@ pub fn cmp_node(n: &Node, b: &[u8], got: &M, raw: bool, path: &mut String) -> Re
         _ => mismatch("structure/kind", path, format!("{:?}", std::mem::discriminant(&n.kind)), got),
     }
 }
+
+/// Allocation-free comparison of a DOM value with a model (object member order ignored,
+/// duplicate-free models).
+pub fn eq_vm(v: &Value, m: &M) -> bool {
+    use sonic_rs::JsonType as T;
+    match (v.get_type(), m) {
+        (T::Null, M::Null) => true,
+        (T::Boolean, M::Bool(b)) => v.as_bool() == Some(*b),
+        (T::Number, M::U64(_) | M::I64(_) | M::F64(_)) => match v.as_number() {
+            Some(n) => &number_to_m(&n) == m,
+            None => false,
+        },
+        (T::String, M::Str(s)) => v.as_str() == Some(s.as_str()),
+        (T::Array, M::Arr(items)) => match v.as_array() {
+            Some(a) => a.len() == items.len() && a.iter().zip(items.iter()).all(|(x, y)| eq_vm(x, y)),
+            None => false,
+        },
+        (T::Object, M::Obj(members)) => match v.as_object() {
+            Some(o) => {
+                o.len() == members.len()
+                    && o.iter().all(|(k, x)| match members.iter().find(|(kk, _)| kk == k) {
+                        Some((_, y)) => eq_vm(x, y),
+                        None => false,
+                    })
+                    && members.iter().all(|(k, _)| o.get(k).is_some())
+            }
+            None => false,
+        },
+        _ => false,
+    }
+}
